@@ -34,6 +34,11 @@ def tasks(tier):
                    ("UCISD", 3, 1, 1, False, {})]
     for k, n, a, b, r, extra in direct:
         t.append((W, "obs_fock", dict(kind=k, norb=n, nu=a, nd=b, what="fb", restricted=r, nchol=2 if k in ("ghf", "cisd") else 1, **extra)))
+    # determinant-list trial (auto class, reverse mode through det / inv incl. the singular padded excitation blocks), every reference determinant
+    for ref in ([0, 4, 7] if tier != "thorough" else range(9)):
+        t.append(("contracts.ms", "ms_fb", dict(norb=3, nu=2, nd=1, ref=ref)))
+    if tier == "thorough":
+        t.append(("contracts.ms", "ms_fb", dict(norb=4, nu=2, nd=1, ref=5)))
     t.append((W, "obs_ru", dict(kind="rhf", norb=3, nocc=1, what="fb")))
     t.append((W, "canary", dict(which="fb")))
     return t
